@@ -208,6 +208,8 @@ class TTMatrix:
 
         :return: bool
         """
+        if self.cores[0].shape[-4] != 1 or self.cores[-1].shape[-1] != 1:
+            return False  # An open outer bond makes it a sum of Kronecker products
         return len(self.ranks) == 0 or max(self.ranks) == 1
 
     def _check_kron_properties(self):
